@@ -1,7 +1,722 @@
 package rules
 
-import "golang.org/x/tools/go/ssa"
+import (
+	"fmt"
+	"os"
+	"go/token"
+	"go/types"
+	"sort"
 
-func (st *c07state) explicitPanics(scope map[*ssa.Function]bool) {}
-func (st *c07state) progress(scope map[*ssa.Function]bool)       {}
-func (st *c07state) alloc(scope map[*ssa.Function]bool)          {}
+	"golang.org/x/tools/go/ssa"
+
+	"wsverif/core"
+)
+
+// ---- explicit panics ----
+
+func (st *c07state) explicitPanics(scope map[*ssa.Function]bool) {
+	c, r := st.c, st.c.R
+	cnt := c.P.Field("Conn", "readErrCount")
+	n := 0
+	var fns []*ssa.Function
+	for fn := range scope {
+		fns = append(fns, fn)
+	}
+	sort.Slice(fns, func(i, j int) bool { return shortFn(fns[i]) < shortFn(fns[j]) })
+	for _, fn := range fns {
+		has := false
+		for _, b := range fn.Blocks {
+			for _, in := range b.Instrs {
+				if _, ok := in.(*ssa.Panic); ok {
+					has = true
+				}
+			}
+		}
+		if !has {
+			continue
+		}
+		type verdict struct {
+			ok  bool
+			why string
+		}
+		sites := map[ssa.Instruction]*verdict{}
+		c.explore("C07.panic-sites", fn, core.Opts{Unroll: 0, RecordLoads: true, NonNilOnNilErr: true, MaxPaths: 400000}, func(p *core.Path) {
+			if p.End != core.EndPanic {
+				return
+			}
+			ev := &p.Events[len(p.Events)-1]
+			v := sites[ev.Instr]
+			if v == nil {
+				v = &verdict{ok: true}
+				sites[ev.Instr] = v
+			}
+			msg, _ := strip(ev.Val).StrVal()
+			switch {
+			case msg == "blocking select matched no case":
+				v.why = "synthetic default of a blocking select: unreachable by construction"
+			case knowsGe(p, len(p.Lits), 1000, func(y *core.Term) bool {
+				// readErrCount (after increment) >= 1000
+				found := false
+				y.Walk(func(t *core.Term) bool {
+					if _, is := fieldLoad(t, cnt); is {
+						found = true
+					}
+					return !found
+				})
+				return found
+			}):
+				v.why = "the documented panic after 1000 reads on a failed connection"
+			default:
+				v.ok = false
+				v.why = "explicit panic reachable from network input: " + ev.Val.String()
+			}
+		})
+		for in, v := range sites {
+			n++
+			r.Check("C07.panic-sites", shortFn(fn), "explicit-panic", in.Pos(), v.ok, v.why)
+		}
+	}
+	if n < 1 {
+		r.Fail("C07.panic-sites", "", "explicit-panics", c.fn("(*Conn).NextReader").Pos(), "the documented NextReader panic was not found (rule blind)")
+	}
+}
+
+// ---- progress ----
+
+type lenRel int
+
+const (
+	relUnknown lenRel = iota
+	relLessEq
+	relLess
+)
+
+func minRel(a, b lenRel) lenRel {
+	if a < b {
+		return a
+	}
+	return b
+}
+
+// suffixSummary: for in-package function f, result k is never longer than parameter j.
+type sumKey struct {
+	f    *ssa.Function
+	k, j int
+}
+
+func (st *c07state) lenRelOf(x *core.Explorer, t, base *core.Term, sums map[sumKey]bool, depth int) lenRel {
+	if t == base {
+		return relLessEq
+	}
+	if depth > 60 {
+		return relUnknown
+	}
+	if s, isS := t.StrVal(); isS && s == "" {
+		return relLessEq
+	}
+	switch t.Kind {
+	case core.KFresh:
+		if n := x.Note(t); n != nil {
+			return minRel(relLessEq, st.lenRelOf(x, n, base, sums, depth+1))
+		}
+		return relUnknown
+	case core.KSlice:
+		r := st.lenRelOf(x, t.Args[0], base, sums, depth+1)
+		if r == relUnknown {
+			return relUnknown
+		}
+		if t.Args[1].Kind != core.KNone {
+			if lo, has := x.Lower(t.Args[1]); has && lo >= 1 {
+				return relLess
+			}
+		}
+		return r
+	case core.KConv:
+		return st.lenRelOf(x, t.Args[0], base, sums, depth+1)
+	case core.KExtract, core.KCall:
+		call, k := t, 0
+		if t.Kind == core.KExtract {
+			call, k = t.Args[0], t.N
+		}
+		if call.Kind != core.KCall {
+			return relUnknown
+		}
+		f, isF := call.Ref.(*ssa.Function)
+		if !isF {
+			return relUnknown
+		}
+		if f.Blocks == nil {
+			switch extName(f) {
+			case "strings.TrimLeft", "strings.TrimRight", "strings.TrimSpace", "strings.Trim", "strings.TrimPrefix", "strings.TrimSuffix":
+				return minRel(relLessEq, st.lenRelOf(x, call.Args[0], base, sums, depth+1))
+			}
+			return relUnknown
+		}
+		best := relUnknown
+		for j, a := range call.Args {
+			if sums[sumKey{f, k, j}] {
+				if r := st.lenRelOf(x, a, base, sums, depth+1); r > best {
+					best = r
+				}
+			}
+		}
+		return best
+	}
+	return relUnknown
+}
+
+// stringSummaries computes "result k no longer than parameter j" for in-package functions with string params/results.
+func (st *c07state) stringSummaries(scope map[*ssa.Function]bool) map[sumKey]bool {
+	sums := map[sumKey]bool{}
+	var cand []*ssa.Function
+	for fn := range scope {
+		sig := fn.Signature
+		hasS := false
+		for i := 0; i < sig.Results().Len(); i++ {
+			if isStringType(sig.Results().At(i).Type()) {
+				hasS = true
+			}
+		}
+		if hasS && fn.Parent() == nil {
+			cand = append(cand, fn)
+		}
+	}
+	sort.Slice(cand, func(i, j int) bool { return shortFn(cand[i]) < shortFn(cand[j]) })
+	for round := 0; round < 3; round++ {
+		for _, fn := range cand {
+			sig := fn.Signature
+			for k := 0; k < sig.Results().Len(); k++ {
+				if !isStringType(sig.Results().At(k).Type()) {
+					continue
+				}
+				for j, prm := range fn.Params {
+					if !isStringType(prm.Type()) || sums[sumKey{fn, k, j}] {
+						continue
+					}
+					holds, n := true, 0
+					o := st.opts()
+					o.OnInstr = nil
+					st.c.explore("C07.progress", fn, o, func(p *core.Path) {
+						if p.End != core.EndReturn || k >= len(p.Results) {
+							return
+						}
+						n++
+						if st.lenRelOf(p.X, p.Results[k], p.X.ParamTerm(prm), sums, 0) == relUnknown {
+							holds = false
+						}
+					})
+					if holds && n > 0 {
+						sums[sumKey{fn, k, j}] = true
+					}
+				}
+			}
+		}
+	}
+	return sums
+}
+
+func isStringType(t types.Type) bool {
+	b, ok := t.Underlying().(*types.Basic)
+	return ok && b.Info()&types.IsString != 0
+}
+
+func (st *c07state) progress(scope map[*ssa.Function]bool) {
+	c, r := st.c, st.c.R
+	sums := st.stringSummaries(scope)
+	if os.Getenv("WSVERIF_DEBUG") != "" {
+		for k := range sums {
+			fmt.Fprintf(os.Stderr, "summary: %s result %d <= param %d\n", shortFn(k.f), k.k, k.j)
+		}
+	}
+	rd := newReader(c)
+	var fns []*ssa.Function
+	for fn := range scope {
+		fns = append(fns, fn)
+	}
+	sort.Slice(fns, func(i, j int) bool { return shortFn(fns[i]) < shortFn(fns[j]) })
+	nLoops := 0
+	for _, fn := range fns {
+		heads := loopHeads(fn)
+		if len(heads) == 0 {
+			continue
+		}
+		// dynamic information from the exploration: per head, was every back edge a strict shrink of some string phi / a consuming read?
+		type info struct {
+			edges      int
+			shrinkAll  map[*ssa.Phi]bool // phi -> strictly shorter on every back edge seen
+			consumeAll bool
+		}
+		infos := map[*ssa.BasicBlock]*info{}
+		for _, h := range heads {
+			infos[h] = &info{shrinkAll: map[*ssa.Phi]bool{}, consumeAll: true}
+		}
+		// string phis assumed non-increasing in length (coinductive invariant, checked below and refined to a fixpoint)
+		assumed := map[*ssa.Phi]bool{}
+		for _, h := range heads {
+			for _, ins := range h.Instrs {
+				if phi, ok := ins.(*ssa.Phi); ok && isStringType(phi.Type()) {
+					assumed[phi] = true
+				}
+			}
+		}
+		nonIncr := map[*ssa.Phi]bool{}
+		o := st.opts()
+		o.OnInstr = nil
+		o.OnGeneralise = func(x *core.Explorer, f *ssa.Function, head *ssa.BasicBlock, phi *ssa.Phi, incoming, fresh *core.Term) {
+			if f == fn && assumed[phi] {
+				x.SetNote(fresh, incoming)
+			}
+		}
+		o.OnBackEdge = func(x *core.Explorer, f *ssa.Function, head *ssa.BasicBlock, phis []*ssa.Phi, old, nw []*core.Term, eval func(ssa.Value) *core.Term) {
+			if f != fn {
+				return
+			}
+			in := infos[head]
+			if in == nil {
+				return
+			}
+			in.edges++
+			for i, phi := range phis {
+				if isStringType(phi.Type()) && st.lenRelOf(x, nw[i], old[i], sums, 0) == relUnknown {
+					if os.Getenv("WSVERIF_DEBUG") != "" {
+						fmt.Fprintf(os.Stderr, "  unknown: %s new=%v old=%v\n", phi.Name(), nw[i], old[i])
+						t := nw[i]
+						for d := 0; d < 8 && t != nil; d++ {
+							fmt.Fprintf(os.Stderr, "     chain: %v (kind %d) note=%v\n", t, t.Kind, x.Note(t))
+							switch {
+							case t.Kind == core.KFresh:
+								t = x.Note(t)
+							case len(t.Args) > 0:
+								if t.Kind == core.KCall {
+									t = t.Args[len(t.Args)-1]
+								} else {
+									t = t.Args[0]
+								}
+							default:
+								t = nil
+							}
+						}
+					}
+					nonIncr[phi] = false
+				} else if _, seen := nonIncr[phi]; !seen && isStringType(phi.Type()) {
+					nonIncr[phi] = true
+				}
+			}
+			for i, phi := range phis {
+				if !isStringType(phi.Type()) {
+					continue
+				}
+				strict := st.lenRelOf(x, nw[i], old[i], sums, 0) == relLess
+				if prev, seen := in.shrinkAll[phi]; seen {
+					in.shrinkAll[phi] = prev && strict
+				} else {
+					in.shrinkAll[phi] = strict
+				}
+			}
+			// consuming read since the head was entered: a successful advanceFrame / read in the prefix events after the last visit of head
+			consumed := false
+			pre := x.Prefix()
+			lits := x.PrefixLits()
+			for i := len(pre) - 1; i >= 0; i-- {
+				ev := &pre[i]
+				if ev.Kind == core.EvCall && (ev.Static == rd.advance || ev.Static == rd.read) {
+					e := errOf(x, ev.Result)
+					for _, l := range lits {
+						if l.Pos && isEqNil(l.T, is(e)) {
+							consumed = true
+						}
+					}
+					break
+				}
+			}
+			if !consumed && !st.guardAlreadyFalse(x, head, eval) {
+				in.consumeAll = false
+			}
+		}
+		runOnce := func() {
+			for _, h := range heads {
+				infos[h] = &info{shrinkAll: map[*ssa.Phi]bool{}, consumeAll: true}
+			}
+			for k := range nonIncr {
+				delete(nonIncr, k)
+			}
+			if shortFn(fn) == "(*Dialer).DialContext" {
+				// analysed in two regions like the panic sites
+				sites := c.acquireSites(fn)
+				if len(sites) == 1 {
+					a := o
+					a.Stop = func(x *core.Explorer, ev *core.Event) bool { return ev.Instr == ssa.Instruction(sites[0]) }
+					c.explore("C07.progress", fn, a, func(p *core.Path) {})
+					b := o
+					b.Start = sites[0]
+					c.explore("C07.progress", fn, b, func(p *core.Path) {})
+				}
+			} else {
+				c.explore("C07.progress", fn, o, func(p *core.Path) {})
+			}
+		}
+		for round := 0; round < 4; round++ {
+			runOnce()
+			if os.Getenv("WSVERIF_DEBUG") != "" {
+				for phi, v := range nonIncr {
+					fmt.Fprintf(os.Stderr, "%s round %d: phi %s (%s) non-increasing=%v assumed=%v\n", shortFn(fn), round, phi.Name(), phi.Comment, v, assumed[phi])
+				}
+			}
+			changed := false
+			for phi := range assumed {
+				if v, seen := nonIncr[phi]; seen && !v {
+					delete(assumed, phi)
+					changed = true
+				}
+			}
+			if !changed {
+				break
+			}
+		}
+		for _, h := range heads {
+			nLoops++
+			kind, why := classifyLoop(c, fn, h)
+			in := infos[h]
+			if kind == "" {
+				for phi, strict := range in.shrinkAll {
+					if strict && in.edges > 0 {
+						kind, why = "shrinking-string", "string cursor "+phi.Comment+" is strictly shorter on every back edge ("+fmt.Sprint(in.edges)+" back-edge arrivals examined)"
+					}
+				}
+			}
+			if kind == "" && in.consumeAll && in.edges > 0 {
+				kind, why = "consumes-input", "every back edge follows a successful frame/header read (at least 2 bytes of input consumed per iteration)"
+			}
+			pos := h.Instrs[0].Pos()
+			for _, ins := range h.Instrs {
+				if ins.Pos().IsValid() {
+					pos = ins.Pos()
+					break
+				}
+			}
+			if !pos.IsValid() {
+				pos = fn.Pos()
+			}
+			if kind == "" {
+				r.Check("C07.progress", shortFn(fn), "loop#"+fmt.Sprint(h.Index), pos, false, "no progress argument found for this loop: no counter bounded by its test, no range, no strictly shrinking string cursor on every back edge, no consumed input (a crafted input can make it spin)")
+			} else {
+				r.Check("C07.progress", shortFn(fn), "loop#"+fmt.Sprint(h.Index), pos, true, kind+": "+why)
+			}
+		}
+	}
+	// advanceFrame returns a nil error only after a successful header read
+	{
+		ok, why := true, "a nil error implies a successful read(2)"
+		c.explore("C07.progress", rd.advance, core.Opts{Unroll: 0, Inline: rd.inl()}, func(p *core.Path) {
+			if p.End != core.EndReturn || len(p.Results) != 2 || !p.Results[1].IsNil() {
+				return
+			}
+			good := false
+			for i := range p.Events {
+				ev := &p.Events[i]
+				if callsStatic(ev, rd.read) {
+					e := errOf(p.X, ev.Result)
+					if hasLit(p, len(p.Lits), true, func(t *core.Term) bool { return isEqNil(t, is(e)) }) {
+						good = true
+					}
+				}
+			}
+			if !good {
+				ok, why = false, "advanceFrame can report success without having consumed a frame header"
+			}
+		})
+		r.Check("C07.progress", shortFn(rd.advance), "success-consumes-header", rd.advance.Pos(), ok, why)
+	}
+	r.Floor("C07.progress", 20)
+	_ = nLoops
+}
+
+// loopHeads lists the loop heads of fn (targets of back edges).
+func loopHeads(fn *ssa.Function) []*ssa.BasicBlock {
+	seen := map[*ssa.BasicBlock]bool{}
+	var out []*ssa.BasicBlock
+	for _, u := range fn.Blocks {
+		for _, v := range u.Succs {
+			if v.Dominates(u) && !seen[v] {
+				seen[v] = true
+				out = append(out, v)
+			}
+		}
+	}
+	sort.Slice(out, func(i, j int) bool { return out[i].Index < out[j].Index })
+	return out
+}
+
+// classifyLoop recognises counter loops and range loops structurally.
+func classifyLoop(c *Ctx, fn *ssa.Function, h *ssa.BasicBlock) (kind, why string) {
+	// range over map/string: the head calls next()
+	for _, in := range h.Instrs {
+		if _, ok := in.(*ssa.Next); ok {
+			return "range", "range over a map or string (terminates when the collection is exhausted)"
+		}
+	}
+	iff, ok := h.Instrs[len(h.Instrs)-1].(*ssa.If)
+	if !ok {
+		return "", ""
+	}
+	cmp, ok := iff.Cond.(*ssa.BinOp)
+	if !ok || cmp.Op != token.LSS {
+		return "", ""
+	}
+	body := loopBody(h)
+	if !body[h.Succs[0]] || body[h.Succs[1]] {
+		return "", ""
+	}
+	// tested value: phi or phi+1 computed in the head
+	var phi *ssa.Phi
+	switch l := cmp.X.(type) {
+	case *ssa.Phi:
+		phi = l
+	case *ssa.BinOp:
+		if p, isP := l.X.(*ssa.Phi); isP && l.Op == token.ADD {
+			phi = p
+		}
+	}
+	if phi == nil || phi.Block() != h {
+		return "", ""
+	}
+	for i, e := range phi.Edges {
+		if !body[h.Preds[i]] {
+			continue
+		}
+		lo, _, ok := stepOfSSA(e, phi, 0, map[ssa.Value]bool{})
+		if !ok || lo < 1 {
+			return "", ""
+		}
+	}
+	// bound must not be assigned inside the loop (len of a loop-invariant value is fine)
+	if bi, isI := cmp.Y.(ssa.Instruction); isI && body[bi.Block()] {
+		call, isCall := cmp.Y.(*ssa.Call)
+		if !isCall {
+			return "", ""
+		}
+		b, isB := call.Call.Value.(*ssa.Builtin)
+		if !isB || b.Name() != "len" {
+			return "", ""
+		}
+		if ai, isAI := call.Call.Args[0].(ssa.Instruction); isAI && body[ai.Block()] {
+			// len(x.f) re-read in the head: fine if nothing in the loop writes field f
+			ld, isLd := call.Call.Args[0].(*ssa.UnOp)
+			if !isLd {
+				return "", ""
+			}
+			fa, isFA := ld.X.(*ssa.FieldAddr)
+			if !isFA {
+				return "", ""
+			}
+			f := fieldOf(fa)
+			for blk := range body {
+				for _, in := range blk.Instrs {
+					if st, isSt := in.(*ssa.Store); isSt {
+						if a, isA := st.Addr.(*ssa.FieldAddr); isA && fieldOf(a) == f {
+							return "", ""
+						}
+					}
+					if ci, isCall := in.(ssa.CallInstruction); isCall {
+						ins, _ := c.P.Callees(ci)
+						for _, g := range ins {
+							if c.P.Mod(g).Writes[f] {
+								return "", ""
+							}
+						}
+					}
+				}
+			}
+		}
+	}
+	return "counter", "counter advances by at least 1 on every back edge towards a loop-invariant bound"
+}
+
+func loopBody(h *ssa.BasicBlock) map[*ssa.BasicBlock]bool {
+	body := map[*ssa.BasicBlock]bool{h: true}
+	for _, u := range h.Parent().Blocks {
+		for _, v := range u.Succs {
+			if v == h && h.Dominates(u) {
+				stack := []*ssa.BasicBlock{u}
+				for len(stack) > 0 {
+					n := stack[len(stack)-1]
+					stack = stack[:len(stack)-1]
+					if body[n] {
+						continue
+					}
+					body[n] = true
+					stack = append(stack, n.Preds...)
+				}
+			}
+		}
+	}
+	return body
+}
+
+func stepOfSSA(e ssa.Value, phi *ssa.Phi, depth int, seen map[ssa.Value]bool) (lo, hi int64, ok bool) {
+	if e == ssa.Value(phi) {
+		return 0, 0, true
+	}
+	if depth > 6 || seen[e] {
+		return 0, 0, false
+	}
+	seen[e] = true
+	switch v := e.(type) {
+	case *ssa.BinOp:
+		if v.Op != token.ADD {
+			return 0, 0, false
+		}
+		var base ssa.Value
+		var kc *ssa.Const
+		if c, isC := v.Y.(*ssa.Const); isC {
+			base, kc = v.X, c
+		} else if c, isC := v.X.(*ssa.Const); isC {
+			base, kc = v.Y, c
+		}
+		if kc == nil || kc.Value == nil {
+			return 0, 0, false
+		}
+		l, h, ok := stepOfSSA(base, phi, depth+1, seen)
+		return l + kc.Int64(), h + kc.Int64(), ok
+	case *ssa.Phi:
+		first := true
+		for _, ed := range v.Edges {
+			l, h, ok := stepOfSSA(ed, phi, depth+1, seen)
+			if !ok {
+				return 0, 0, false
+			}
+			if first || l < lo {
+				lo = l
+			}
+			if first || h > hi {
+				hi = h
+			}
+			first = false
+		}
+		return lo, hi, !first
+	}
+	return 0, 0, false
+}
+
+// ---- allocation ----
+
+func (st *c07state) alloc(scope map[*ssa.Function]bool) {
+	c, r := st.c, st.c.R
+	rd := newReader(c)
+	var fns []*ssa.Function
+	for fn := range scope {
+		fns = append(fns, fn)
+	}
+	sort.Slice(fns, func(i, j int) bool { return shortFn(fns[i]) < shortFn(fns[j]) })
+	n := 0
+	for _, fn := range fns {
+		for _, b := range fn.Blocks {
+			for _, in := range b.Instrs {
+				var size ssa.Value
+				what := ""
+				switch v := in.(type) {
+				case *ssa.MakeSlice:
+					size, what = v.Len, "make"
+					if _, isC := v.Cap.(*ssa.Const); !isC && v.Cap != v.Len {
+						size = v.Cap
+					}
+				case ssa.CallInstruction:
+					if f := v.Common().StaticCallee(); f != nil && !c.P.InPkg(f) {
+						switch extName(f) {
+						case "(*bytes.Buffer).Grow", "(*strings.Builder).Grow", "slices.Grow", "bytes.NewBuffer":
+							size, what = v.Common().Args[len(v.Common().Args)-1], extName(f)
+						}
+					}
+				}
+				if size == nil {
+					continue
+				}
+				n++
+				ok, why := true, "size is a constant or derived from the length of data already held"
+				if dependsOnLength(size, rd, map[ssa.Value]bool{}) || dependsOnDecodedInt(size, map[ssa.Value]bool{}) {
+					ok, why = false, what+" is sized from a length claimed by the peer (frame header / decoded integer), not from bytes received"
+				}
+				r.Check("C07.alloc", shortFn(fn), what+"-size", in.Pos(), ok, why)
+			}
+		}
+	}
+	r.Floor("C07.alloc", 3)
+}
+
+// dependsOnDecodedInt: the value derives from binary.BigEndian.UintNN of received bytes or from a header byte.
+func dependsOnDecodedInt(v ssa.Value, seen map[ssa.Value]bool) bool {
+	if v == nil || seen[v] {
+		return false
+	}
+	seen[v] = true
+	switch x := v.(type) {
+	case *ssa.Call:
+		if f := x.Call.StaticCallee(); f != nil {
+			switch extName(f) {
+			case "(encoding/binary.bigEndian).Uint16", "(encoding/binary.bigEndian).Uint32", "(encoding/binary.bigEndian).Uint64", "strconv.Atoi", "strconv.ParseInt", "strconv.ParseUint":
+				return true
+			}
+		}
+		if b, ok := x.Call.Value.(*ssa.Builtin); ok && (b.Name() == "min" || b.Name() == "max") {
+			for _, a := range x.Call.Args {
+				if dependsOnDecodedInt(a, seen) {
+					return true
+				}
+			}
+		}
+	case *ssa.BinOp:
+		return dependsOnDecodedInt(x.X, seen) || dependsOnDecodedInt(x.Y, seen)
+	case *ssa.Convert:
+		return dependsOnDecodedInt(x.X, seen)
+	case *ssa.Phi:
+		for _, e := range x.Edges {
+			if dependsOnDecodedInt(e, seen) {
+				return true
+			}
+		}
+	case *ssa.UnOp:
+		if x.Op == token.MUL {
+			if _, isIdx := x.X.(*ssa.IndexAddr); isIdx {
+				if b, ok := x.Type().Underlying().(*types.Basic); ok && b.Kind() == types.Uint8 {
+					return true // a received byte used as a size
+				}
+			}
+		}
+	}
+	return false
+}
+
+// guardAlreadyFalse: the loop head tests `x.f == nil` (continue while nil) and
+// the path has just made x.f non-nil: the next evaluation of the guard leaves the loop.
+func (st *c07state) guardAlreadyFalse(x *core.Explorer, head *ssa.BasicBlock, eval func(ssa.Value) *core.Term) bool {
+	iff, ok := head.Instrs[len(head.Instrs)-1].(*ssa.If)
+	if !ok {
+		return false
+	}
+	cmp, ok := iff.Cond.(*ssa.BinOp)
+	if !ok || cmp.Op != token.EQL {
+		return false
+	}
+	k, isC := cmp.Y.(*ssa.Const)
+	if !isC || k.Value != nil {
+		return false
+	}
+	ld, isLd := cmp.X.(*ssa.UnOp)
+	if !isLd || ld.Op != token.MUL {
+		return false
+	}
+	fa, isFA := ld.X.(*ssa.FieldAddr)
+	if !isFA {
+		return false
+	}
+	body := loopBody(head)
+	if !body[head.Succs[0]] || body[head.Succs[1]] {
+		return false
+	}
+	cur, known := x.Peek(x.FieldAddrOf(eval(fa.X), fieldOf(fa)))
+	if !known {
+		return false
+	}
+	v, decided := x.Decide(x.Eq(cur, x.T.Const(nil, cur.Type)))
+	return decided && !v
+}
